@@ -141,6 +141,45 @@ def _subst(term, mapping):
     return term
 
 
+def fold_consts(term, consts):
+    """Replace named integer constants of the crate by their values (a literal turned into `const LIMIT: … = n` is the
+    same program)."""
+    k = term[0]
+    if k == "cdef":
+        c = consts.get(term[1])
+        if c is not None and isinstance(c.get("v"), int) and not isinstance(c.get("v"), bool):
+            return ("const", c["v"])
+        return term
+    if k == "field":
+        return (k, fold_consts(term[1], consts), term[2], term[3] if len(term) > 3 else None)
+    if k == "variant":
+        return (k, fold_consts(term[1], consts), term[2])
+    if k == "mvar":
+        return ("mvar", term[1], term[2], fold_consts(term[3], consts))
+    if k == "index":
+        return (k, fold_consts(term[1], consts), fold_consts(term[2], consts))
+    if k == "call":
+        t = ("call", term[1], tuple(fold_consts(a, consts) for a in term[2]), term[3])
+        # len of a byte-string literal
+        m = t[3] or {}
+        if m.get("name") == "len" and len(t[2]) == 1 and t[2][0][0] == "bytes":
+            return ("const", len(t[2][0][1]))
+        return t
+    if k == "bin":
+        return ("bin", term[1], fold_consts(term[2], consts), fold_consts(term[3], consts))
+    if k == "un":
+        return ("un", term[1], fold_consts(term[2], consts))
+    if k == "cast":
+        return ("cast", fold_consts(term[1], consts), term[2])
+    if k in ("discr", "len"):
+        return (k, fold_consts(term[1], consts))
+    if k == "agg":
+        return ("agg", term[1], term[2], tuple((f_, fold_consts(v, consts)) for f_, v in term[3]))
+    if k == "closure":
+        return ("closure", term[1], tuple(fold_consts(a, consts) for a in term[2]))
+    return term
+
+
 def chains_to(f, entry, sink_pred, max_depth=10):
     """All call chains [c1, c2, …, sink] from body `entry` to a call satisfying sink_pred."""
     memo = {}
@@ -879,6 +918,8 @@ def canon_literal(body, discr_term, dty, edge_vals, n_edges):
     operands sorted and its outcomes renamed accordingly."""
     from engine import orderlogic as OL
     t = strip_deep(discr_term)
+    if body.facts is not None:
+        t = fold_consts(t, body.facts.consts)
     if dty == "bool" and len(edge_vals) == 1:
         truth = edge_vals[0] != "0"
         a = OL.atom(t)
